@@ -332,12 +332,26 @@ def broad_queries():
     for (on, cname), entry in sorted(catalogue().items()):
         ow = entry["owner"]
         if ow.kind == "module" and on.startswith("core."):
-            args = []
+            given = []
             for pname, fac, kind in entry["params"]:
                 if kind != "given":
                     break                          # reserved trailing parameter: not passed
-                args.append(to_json_arg(fac()[0]))
-            qs.append(Q(on[len("core."):], cname, *args))
+                given.append(fac())
+            qs.append(Q(on[len("core."):], cname, *[to_json_arg(alts[0]) for alts in given]))
+            # the same question with one optional flag flipped, asked about the default and about the second
+            # (richer) alternative of the leading argument: a memo whose key leaves a flag out answers one of
+            # these with the other's result
+            flags = [i for i, alts in enumerate(given) if i > 0 and len(alts) > 1 and all(isinstance(a, bool) for a in alts)]
+            if flags:
+                for lead in range(min(2, len(given[0]))):
+                    for i in [None] + flags:
+                        if lead == 0 and i is None:
+                            continue
+                        args = [to_json_arg(alts[0]) for alts in given]
+                        args[0] = to_json_arg(given[0][lead])
+                        if i is not None:
+                            args[i] = to_json_arg(given[i][1])
+                        qs.append(Q(on[len("core."):], cname, *args))
         elif ow.kind == "class" and ow.pool == "scale" and not cname.startswith("__"):
             cargs = ["C", T(3, 7)] if on == "Diatonic" else ["C"]
             args = [to_json_arg(fac()[0]) for pname, fac, kind in entry["params"] if kind == "given"]
@@ -1053,6 +1067,13 @@ def run_instances(case):
     b = ow.make()
     pristine = observe(b)
     defaults = class_defaults(ow.target)
+    # a twin that has been through the same first operation as `a` (two objects filled the same way are
+    # still two objects): the rest of the script must leave it as it was
+    twin, twin0 = None, None
+    if len(case[1]) >= 2:
+        twin = ow.make()
+        apply_ops(case[0], twin, case[1][:1])
+        twin0 = observe(twin)
     before_a = observe(a)
     eff = apply_ops(case[0], a, case[1])
     changed = observe(a) != before_a
@@ -1065,6 +1086,13 @@ def run_instances(case):
     if after_b != pristine:
         _report(judged, "%s: sibling instance after [%s]" % (case[0], script), json.loads(pristine), json.loads(after_b),
                 "operating on one instance changed a separately created one", {"kind": "sibling", "class": case[0]})
+    if twin is not None:
+        after_twin = observe(twin)
+        if after_twin != twin0:
+            _report(judged, "%s: a second instance that went through the same first operation, after [%s]" % (case[0], script),
+                    json.loads(twin0), json.loads(after_twin),
+                    "operating on one instance changed another one that had been filled the same way", {"kind": "twin", "class": case[0]})
+        S.count("twin_instances_checked")
     after_defaults = class_defaults(ow.target)
     if after_defaults != defaults:
         _report(judged, "%s: class defaults after [%s]" % (case[0], script), json.loads(defaults), json.loads(after_defaults),
